@@ -546,6 +546,9 @@ class Parser:
         if self.isid('continue'):
             self.eat()
             return ('continue',)
+        if self.isop('$') and self.peek(1)[0] == 'id':
+            self.eat()
+            return ('path', '$' + self.eat()[1])
         if p[0] == 'id':
             self.eat()
             name = p[1]
